@@ -64,6 +64,17 @@ def seeded(ctx, rng, n):
         s = cz(rng.choice([2.0, -0.5, 3.0, 0.125]), rng.choice([0.0, 1.0, -2.0]) if cx else 0.0)
         xs = [cz(0.5), cz(-0.75, 0.5 if cx else 0.0), cz(1.0)]
         cases.append({"cx": cx, "a": a, "b": b, "s": s, "ta": fp(tol), "tb": fp(tol), "xs": xs})
+    # operands that store a leading zero (what a difference of two polynomials of equal degree leaves): two coefficients
+    # with a zero second one, on either side of every operator, against operands of degree 0..4
+    for k in range(max(12, n // 40)):
+        cx = k % 2 == 1
+        short = [cz(float(rng.randint(1, 9)), float(rng.randint(-3, 3)) if cx else 0.0), cz(0.0)]
+        if k % 4 >= 2:
+            short.append(cz(0.0))
+        other = rand_poly(rng, rng.randint(0, 4), cx, "dense")
+        a, b = (short, other) if k % 3 else (other, short)
+        s = cz(rng.choice([2.0, -0.5, 3.0, 0.125]), rng.choice([0.0, 1.0, -2.0]) if cx else 0.0)
+        cases.append({"cx": cx, "a": a, "b": b, "s": s, "ta": fp(1e-30), "tb": fp(1e-30), "xs": [cz(0.5), cz(-0.75, 0.5 if cx else 0.0), cz(1.0)]})
     return cases
 
 
